@@ -306,6 +306,8 @@ func (p *specParser) postfix() (*SExpr, error) {
 			}
 			if e.S == "old" && len(args) == 1 {
 				e = &SExpr{Op: "old", Args: args}
+			} else if e.S == "now" && len(args) == 1 {
+				e = &SExpr{Op: "now", Args: args}
 			} else if e.S == "entry" && len(args) == 1 {
 				e = &SExpr{Op: "entry", Args: args}
 			} else {
